@@ -21,7 +21,8 @@ FN_STARTS, FN_ENDS, FN_HASKEY, FN_REGEXP = 100, 101, 102, 103
 
 
 def stable_repr(v):
-    if type(v).__module__ == "world":
+    if type(v).__module__ != "builtins":
+        # instances of the generated classes (module world / abc / types / typing): never their address
         return f"<{type(v).__name__}>"
     if isinstance(v, (tuple, list)):
         return type(v).__name__ + "(" + ",".join(stable_repr(x) for x in v) + ")"
@@ -78,9 +79,20 @@ class EWorld:
         from ovld.types import Intersection, Union
 
         k = d[0]
+        # every other descriptor is spelled the way the documentation spells a re-bounded check,
+        # `Dependent[bound, check]` (the check first gets its own default bound), the others pass `bound=`
+        spelled = zlib.crc32(json.dumps(d).encode()) % 2 == 0
         if k == "lit":
+            if spelled:
+                from ovld.dependent import Dependent
+
+                return Dependent[self.ty(d[2]), Equals(*[POOL[i] for i in d[1]])]
             return Equals(*[POOL[i] for i in d[1]], bound=self.ty(d[2]))
         if k == "prod":
+            if spelled:
+                from ovld.dependent import Dependent
+
+                return Dependent[self.ty(d[2]), ProductType(*[self.ty(a) for a in d[1]])]
             return ProductType(*[self.ty(a) for a in d[1]], bound=self.ty(d[2]))
         if k == "fdep":
             key = json.dumps(d)
@@ -178,7 +190,7 @@ def gen_dep_type(rng, ew, key_cls, depth=2, allow_combo=True, force_combo=False)
         n = rng.choice([1, 1, 1, 2, 3])
         vs = [rng.choice(vals_here if rng.random() < 0.85 else list(range(len(POOL)))) for _ in range(n)]
         vs = [v for v in vs if not isinstance(POOL[v], (list, dict))] or [vals_here[0] if not isinstance(POOL[vals_here[0]], (list, dict)) else 0]
-        b = ["cls", ew.cls_id(POOL[vs[0]])] if rng.random() < 0.8 else bound
+        b = ["cls", ew.cls_id(POOL[vs[0]])] if rng.random() < 0.55 else bound
         if b[0] == "cls" and not w.tables_cache["sub"][key_cls][b[1]]:
             b = bound
         return ["lit", vs, b]
